@@ -15,6 +15,7 @@ data_file = $W/data/.coverage
 omit = */test/*
 sigterm = True
 EOC
+export VERIF_CASE_LIMIT=${VERIF_CASE_LIMIT:-400} VERIF_WORKERS=${VERIF_WORKERS:-4}
 export PYTHONHASHSEED=0 PYTHONDONTWRITEBYTECODE=1 NIXPY_VERIF=1 HDF5_USE_FILE_LOCKING=FALSE OMP_NUM_THREADS=1 VERIF_OUT=$W/out
 for c in $checks; do
   /venv/bin/python -W ignore -m coverage run --rcfile=$W/rc -m mc.core $c $tier 2>&1 | tail -1
